@@ -38,6 +38,8 @@ def n_cases(tier):
 def worker_setup(tier, rec):
     st = common.install_monitors(rec)
     st["walked"] = set()
+    from . import c14
+    c14.install_yield_injector()        # the LINE-callback yield injector of C14 (tool id 3), off until a case turns it on
     return st
 
 
@@ -49,7 +51,9 @@ def run_case(seed, tier, rec, st):
     rng = random.Random(seed)
     rec.evaluation()
     x = rng.random()
-    if x < 0.08:
+    if x < 0.03:
+        threaded_first_use_case(rng, tier, rec, st, seed)
+    elif x < 0.08:
         passthrough_union_case(rng, tier, rec, st)
     elif x < 0.55:
         schema_case(rng, tier, rec, st)
@@ -181,7 +185,8 @@ def schema_case(rng, tier, rec, st):
 def identity_case(rng, tier, rec, st):
     from mashumaro.codecs.basic import BasicDecoder, BasicEncoder
     kind = rng.choice(["local_dc", "local_enum", "two_modules_dc", "two_modules_enum", "generator_global_name",
-                       "functional_nt", "functional_td", "make_dataclass", "rebound", "two_modules_generic"])
+                       "functional_nt", "functional_td", "make_dataclass", "rebound", "two_modules_generic",
+                       "non_ascii_names", "literal_mixin_enum_other_module"])
     fam = Family("c17i", future_annotations=False)
     other = Family("c17o")
     facts = {"monitor": "identity", "kind": kind}
@@ -213,6 +218,50 @@ def identity_case(rng, tier, rec, st):
             fam.exec_src("class Color(enum.Enum):\n    R = 'r'\n" + holder("Color", "other.Color"))
             c1, c2, mkv = fam.module.Color, other.module.Color, (lambda c: c.R)
             wire = None
+        elif kind == "non_ascii_names":
+            # two classes whose names differ only in non-ASCII letters (identifiers derived from them must not collide)
+            n1, n2 = rng.choice([("Größe", "Grüße"), ("名前", "住所"), ("Ünit", "Änit"), ("Δx", "Ωx")])
+            enumlike = rng.random() < 0.4
+            if enumlike:
+                fam.exec_src(f"class {n1}(enum.Enum):\n    A = 1\nclass {n2}(enum.Enum):\n    A = 2\n" + holder(n1, n2))
+                c1, c2, mkv = getattr(fam.module, n1), getattr(fam.module, n2), (lambda c: c.A)
+            else:
+                fam.exec_src(f"@dataclass\nclass {n1}" + base + f":\n    x: int = 1\n@dataclass\nclass {n2}" + base + ":\n    y: str = 's'\n" + holder(n1, n2))
+                c1, c2, mkv = getattr(fam.module, n1), getattr(fam.module, n2), (lambda c: c())
+            wire = None
+        elif kind == "literal_mixin_enum_other_module":
+            # a Literal member that is a str/int-mixin enum member EQUAL to a plain constant listed earlier; the enum
+            # lives in another module that nothing else in the class mentions
+            other.exec_src("class Role(str, enum.Enum):\n    user = 'user'\n    admin = 'admin'\nclass Ver(enum.IntEnum):\n    v1 = 1\n")
+            fam.module.roles = other.module
+            fam.exec_src(f"@dataclass\nclass H{base}:\n    kind: Literal['user', 'bot']\n    rev: Literal[1, 2]\n    a: Literal[roles.Role.user]\n    b: Literal[roles.Ver.v1]\n")
+            H = fam.module.H
+            enc, dec = BasicEncoder(H), BasicDecoder(H)
+            h = H("user", 1, other.module.Role.user, other.module.Ver.v1)
+            routes = [("codec", enc.encode, dec.decode)] + ([("mixin", lambda x: x.to_dict(), H.from_dict)] if mixin else [])
+            for rname, e, d in routes:
+                rec.count("identity_checks")
+                det = {"kind": kind, "route": rname, "source": "".join(fam.sources[1:]) + "".join(other.sources[1:])}
+                try:
+                    doc = e(h)
+                    back = d(doc)
+                    ok = back.a is other.module.Role.user and back.b is other.module.Ver.v1 and back == h
+                    for bad in ({"kind": "user", "rev": 1, "a": "nobody", "b": 1}, {"kind": "user", "rev": 1}, {"kind": "x", "rev": 1, "a": "user", "b": 1}):
+                        try:
+                            d(bad)
+                            ok = False
+                        except (NameError, AttributeError):
+                            raise
+                        except Exception:
+                            pass
+                except Exception as ex:
+                    rec.violation(f"identity:{kind}:exception:{type(ex).__name__}", dict(det, error=f"{type(ex).__name__}: {ex}"[:300]), dict(facts, exc=type(ex).__name__))
+                    continue
+                if not ok:
+                    rec.violation(f"identity:{kind}:wrong-class-or-value", dict(det, document=common.short(doc), observed=common.short(back)), facts)
+            walk_new_functions(rec, st, {"kind": kind})
+            rec.nontrivial(("identity", kind, mixin))
+            return
         elif kind == "generator_global_name":
             nm = rng.choice(["Field", "Dialect", "Alias", "MISSING", "CodeBuilder", "Discriminator", "ValueSpec", "typing", "uuid", "math", "enum"])
             facts["name"] = nm
@@ -356,3 +405,74 @@ def passthrough_union_case(rng, tier, rec, st):
     finally:
         fam.dispose()
         other.dispose()
+
+
+# ------------------------------------------------------------------ (e) first use from several threads
+def threaded_first_use_case(rng, tier, rec, st, seed):
+    """several lazily compiled holders share plain nested dataclasses and are used for the first time by several
+    threads at once (yield injection at generated-code / library lines): no call may fail on valid data - in particular
+    not with an AttributeError for a method that another thread is still building."""
+    import sys
+    import threading
+    import time
+    from . import c14
+    fam = Family("c17t", future_annotations=False)
+    try:
+        nh = rng.randint(2, 4)
+        src = "@dataclass\nclass Point:\n    x: int = 0\n    when: datetime.date = datetime.date(2000, 1, 1)\n@dataclass\nclass Seg:\n    a: Point = field(default_factory=Point)\n    b: Optional[Point] = None\n"
+        for i in range(nh):
+            lazy = "    class Config(BaseConfig):\n        lazy_compilation = True\n"
+            src += f"@dataclass\nclass H{i}(DataClassDictMixin):\n    p: Point = field(default_factory=Point)\n    s: List[Seg] = field(default_factory=list)\n    later: Optional['Late'] = None\n{lazy}"
+        src += "@dataclass\nclass Late:\n    p: Point = field(default_factory=Point)\n"
+        fam.exec_src(src)
+        m = fam.module
+        doc = {"p": {"x": 1, "when": "2020-01-02"}, "s": [{"a": {"x": 2}, "b": {"x": 3}}], "later": {"p": {"x": 4}}}
+        T = 6
+        bar = threading.Barrier(T)
+        errors = []
+        lock = threading.Lock()
+
+        def work(i):
+            H = getattr(m, f"H{i % nh}")
+            try:
+                bar.wait(timeout=30)
+            except Exception:
+                return
+            for _ in range(2):
+                try:
+                    r = H.from_dict(doc)
+                    out = r.to_dict()
+                    if out != {"p": {"x": 1, "when": "2020-01-02"}, "s": [{"a": {"x": 2, "when": "2000-01-01"}, "b": {"x": 3, "when": "2000-01-01"}}],
+                               "later": {"p": {"x": 4, "when": "2000-01-01"}}}:
+                        with lock:
+                            errors.append(("wrong-result", repr(out)[:200]))
+                except Exception as e:
+                    with lock:
+                        errors.append((type(e).__name__, f"{e}"[:200] + " <- " + type(e.__context__).__name__ if e.__context__ else f"{e}"[:200]))
+        c14._Y.update(seq=[], rng=random.Random(seed), p=rng.choice([0.01, 0.03, 0.1]), budget=3000)
+        old = sys.getswitchinterval()
+        sys.setswitchinterval(1e-6)
+        mon = sys.monitoring
+        ts = [threading.Thread(target=work, args=(i,), daemon=True) for i in range(T)]
+        mon.set_events(c14.YIELD_TOOL, mon.events.LINE)
+        mon.restart_events()
+        c14._Y["on"] = True
+        for t in ts:
+            t.start()
+        for t in ts:
+            t.join(timeout=60)
+        c14._Y["on"] = False
+        mon.set_events(c14.YIELD_TOOL, 0)
+        sys.setswitchinterval(old)
+        if any(t.is_alive() for t in ts):
+            rec.count("thread_watchdog_inconclusive")
+            return
+        rec.count("threaded_first_use_families")
+        rec.count("thread_handoffs", len(c14._Y["seq"]))
+        for name, msg in errors:
+            rec.violation(f"threads:first-use:{name}", {"source": src, "error": msg}, {"monitor": "threads", "exc": name})
+        if not errors:
+            rec.nontrivial(("threads", nh, len(c14._Y["seq"]) // 50))
+        walk_new_functions(rec, st, {"kind": "threaded_first_use"})
+    finally:
+        fam.dispose()
